@@ -5,6 +5,7 @@ A history case is JSON: {"prune": bool, "ops": [op, ...]} with
   ["batch", exit, [op, ...]]      exit = "ok" | "raise"   (squash_changes, not nested)
 keys/values are hex strings. The adapter applies them to the real trie (imported from /repo) and
 emits, for every call, the equivalent model command together with the canonicalised outcome."""
+import os
 import common
 from common import hx, unhx, nibstr
 
@@ -28,9 +29,44 @@ BYTE_ALPHABET = [0x00, 0x0f, 0xf0, 0xff, 0x12, 0x10, 0x1f, 0x21, 0x34]
 VALUE_LENGTHS = [1, 1, 2, 3, 8, 20, 26, 27, 28, 29, 30, 31, 32, 33, 34, 35, 40, 55, 56, 70]
 
 
+BIG_VALUE_LENGTHS = [127, 128, 255, 256, 257, 300, 1024]
+WIDE = float(os.environ.get("VERIF_WIDE", "0.07"))
+
+
+def gen_wide_universe(rng, nkeys):
+    """Keys as Ethereum uses them and beyond: 32-byte (hash-like) and 20-byte keys, 56..64-byte keys, families that share
+    all but the last byte / nibble / a long prefix (extension and leaf paths of 56+ nibbles; hex-prefix strings of 56+ bytes,
+    which rlp encodes in its long form), a key that is a proper prefix of such a family and one that extends it."""
+    n = rng.choice([20, 32, 32, 32, 56, 64])
+    h = bytes(rng.randrange(256) for _ in range(n))
+    keys = {h}
+    tries = 0
+    while len(keys) < nkeys and tries < 100:
+        tries += 1
+        base = rng.choice(sorted(keys))
+        how = rng.random()
+        if how < 0.3:
+            k = base[:-1] + bytes([(base[-1] & 0xf0) | rng.choice([0, 15, rng.randrange(16)])])
+        elif how < 0.5:
+            k = base[:-1] + bytes([(base[-1] & 0x0f) | (rng.choice([0, 15, rng.randrange(16)]) << 4)])
+        elif how < 0.7:
+            cut = rng.choice([1, 2, 4, n // 2, n - 1, n - 2])
+            k = base[:cut] + bytes(rng.randrange(256) for _ in range(len(base) - cut))
+        elif how < 0.8:
+            k = base + bytes([rng.choice([0, 0xff, 0x10])])
+        elif how < 0.9:
+            k = base[:rng.choice([n - 1, n - 2, n // 2, 1])]
+        else:
+            k = bytes(rng.randrange(256) for _ in range(n))
+        keys.add(k)
+    return sorted(keys)
+
+
 def gen_universe(rng, nkeys):
     """Key pool with heavy prefix sharing: the empty key, prefixes, extensions, siblings differing
     in the high or the low nibble (children 0 and 15 included)."""
+    if rng.random() < WIDE:
+        return gen_wide_universe(rng, nkeys)
     keys = set()
     stems = [bytes(rng.choice(BYTE_ALPHABET) for _ in range(rng.randint(1, 4))) for _ in range(rng.randint(1, 3))]
     if rng.random() < 0.4:
@@ -61,6 +97,11 @@ def gen_value(rng, pool=None):
     if pool and rng.random() < 0.5:
         return rng.choice(pool)
     n = rng.choice(VALUE_LENGTHS)
+    r = rng.random()
+    if r < 0.04:
+        n = rng.choice(BIG_VALUE_LENGTHS)      # rlp long strings: one and two length bytes
+    elif r < 0.043:
+        n = rng.choice([65535, 65536, 65600])  # three length bytes
     c = rng.choice(b"abc")
     if rng.random() < 0.2:
         return bytes(rng.randrange(256) for _ in range(n))
